@@ -97,8 +97,25 @@ func (ft *FuncTr) call(st *State, at *Term, in ssa.Instruction, c *ssa.CallCommo
 		cname = fname // call of a function stored in a struct field: field:<pkg>.<Type>.<field>
 	}
 	ft.curCallNth = ft.callOrdinal(in, cname)
-	if _, isB := c.Value.(*ssa.Builtin); !isB || cname == "append" || cname == "copy" {
-		ft.leak()
+	// escape: a callee (or an append / copy into an older array) can make objects allocated here reachable from older
+	// objects only if it is handed something that can carry a reference
+	if _, isB := c.Value.(*ssa.Builtin); !isB {
+		carries := c.IsInvoke() || c.StaticCallee() == nil
+		if sc := c.StaticCallee(); sc != nil && len(sc.FreeVars) > 0 {
+			carries = true
+		}
+		for _, a := range c.Args {
+			if ft.w.mayCarryRef(a.Type(), 0) {
+				carries = true
+			}
+		}
+		if carries {
+			ft.leak()
+		}
+	} else if cname == "append" || cname == "copy" {
+		if st, ok := c.Args[0].Type().Underlying().(*types.Slice); ok && ft.w.mayCarryRef(st.Elem(), 0) {
+			ft.leak()
+		}
 	}
 	if cname != "" && os.Getenv("GOVC_CALLS") != "" {
 		fmt.Fprintf(os.Stderr, "call %s#%d at %s\n", lastName(cname), ft.curCallNth, ft.posStr(in.Pos()))
@@ -675,6 +692,23 @@ func (ft *FuncTr) appendBuiltin(st *State, at *Term, in ssa.Instruction, c *ssa.
 			ft.assume(at, Forall([]Bound{{"ax", srt.V}}, Eq(er, Or(Select(ft.h.elemsOf(before, s, srt.V), xv), addSet)), []*Term{er}))
 		}
 		ft.h.setArr(st, an, after)
+		// a growing append writes only the array it allocates; an append in place writes its operand's array: when
+		// that is an array made here that has not escaped, no object older than the oldest such array is written
+		{
+			cond := grow
+			bound := nx
+			var keys []string
+			for k := range ft.localArr {
+				keys = append(keys, k)
+			}
+			sort.Strings(keys)
+			for _, k := range keys {
+				id := ft.localArr[k]
+				cond = Or(cond, Eq(PObjID(SlcArr(s)), id))
+				bound = mk(SInt, "ite", Lt(id, bound), id, bound)
+			}
+			ft.h.noteFreshFrameCond(before, after, bound, cond)
+		}
 	}
 	return Val{T: res}, nil
 }
